@@ -1141,13 +1141,14 @@ fn diff_instance(
     // Edges (skeleton plane): map by EdgeId for stable diff independent of insertion order.
     let before_edges = edges_by_id(before);
     let after_edges = edges_by_id(after);
-    diff_edges(ops, warp_id, &before_edges, &after_edges);
+    let recreated_edges = diff_edges(ops, warp_id, &before_edges, &after_edges, after);
     diff_edge_attachments(
         ops,
         warp_id,
         before,
         after,
         &after_edges,
+        &recreated_edges,
         skip_attachment_ops,
     );
 }
@@ -1223,12 +1224,17 @@ fn diff_node_attachments(
     }
 }
 
+/// Emits the edge-record ops and returns the ids of edges that are described as
+/// delete-then-recreate (their attachment must be re-set explicitly, because a
+/// `DeleteEdge` cascade-drops it on replay).
 fn diff_edges(
     ops: &mut Vec<WarpOp>,
     warp_id: WarpId,
     before_edges: &std::collections::BTreeMap<ContentHash, EdgeRecord>,
     after_edges: &std::collections::BTreeMap<ContentHash, EdgeRecord>,
-) {
+    after: &GraphStore,
+) -> std::collections::BTreeSet<ContentHash> {
+    let mut recreated = std::collections::BTreeSet::new();
     for (id, rec_before) in before_edges {
         if !after_edges.contains_key(id) {
             ops.push(WarpOp::DeleteEdge {
@@ -1255,6 +1261,22 @@ fn diff_edges(
                 // source buckets while keeping the edge's attachment, exactly as
                 // the live store did. Emitting a `DeleteEdge` for the old source
                 // first would cascade-drop that attachment on replay.
+                //
+                // Exception: when an endpoint of the old record no longer exists,
+                // its `DeleteNode` sorts before every `UpsertEdge` and would be
+                // refused (`NodeNotIsolated`) while the old record still hangs off
+                // it. Release the old record first; the attachment diff re-sets
+                // whatever the edge carries afterwards.
+                if !after.nodes.contains_key(&rec_before.from)
+                    || !after.nodes.contains_key(&rec_before.to)
+                {
+                    ops.push(WarpOp::DeleteEdge {
+                        warp_id,
+                        from: rec_before.from,
+                        edge_id: EdgeId(*id),
+                    });
+                    recreated.insert(*id);
+                }
                 ops.push(WarpOp::UpsertEdge {
                     warp_id,
                     record: rec_after.clone(),
@@ -1262,6 +1284,7 @@ fn diff_edges(
             }
         }
     }
+    recreated
 }
 
 fn diff_edge_attachments(
@@ -1270,13 +1293,21 @@ fn diff_edge_attachments(
     before: &GraphStore,
     after: &GraphStore,
     after_edges: &std::collections::BTreeMap<ContentHash, EdgeRecord>,
+    recreated_edges: &std::collections::BTreeSet<ContentHash>,
     skip_attachment_ops: &std::collections::BTreeSet<AttachmentKey>,
 ) {
     for id in after_edges.keys() {
         let edge_id = EdgeId(*id);
         let before_val = before.edge_attachment(&edge_id);
         let after_val = after.edge_attachment(&edge_id);
-        if before_val == after_val {
+        // A recreated edge starts without an attachment on replay: an unchanged
+        // value still has to be written, an absent one needs no op.
+        let unchanged = if recreated_edges.contains(id) {
+            after_val.is_none()
+        } else {
+            before_val == after_val
+        };
+        if unchanged {
             continue;
         }
 
